@@ -86,6 +86,48 @@ pub fn render_grids(r: &Render) -> Vec<Grid> {
     v
 }
 
+
+/// Loads `bytes` through the incremental API with one pause after `cut` bytes, where the loading frame is
+/// rendered (result ignored; `on_pause` runs right before it, e.g. to arm a fault).  The frames loaded so far keep
+/// the render caches that this progressive render leaves behind.
+pub fn open_with_loading_render(bytes: &[u8], cut: usize, builder: jxl_oxide::JxlImageBuilder, on_pause: impl FnOnce(), after_pause: impl FnOnce()) -> Result<JxlImage, String> {
+    let mut uninit = Some(builder.build_uninit());
+    let mut image: Option<JxlImage> = None;
+    let mut pending: Vec<u8> = vec![];
+    let cut = cut.min(bytes.len());
+    let mut on_pause = Some(on_pause);
+    let mut after_pause = Some(after_pause);
+    for (phase, piece) in [&bytes[..cut], &bytes[cut..]].into_iter().enumerate() {
+        pending.extend_from_slice(piece);
+        if let Some(img) = image.as_mut() {
+            let c = img.feed_bytes(&pending).map_err(|e| format!("feed_bytes: {e}"))?;
+            pending.drain(..c);
+        } else {
+            let mut u = uninit.take().unwrap();
+            let c = u.feed_bytes(&pending).map_err(|e| format!("feed_bytes(uninit): {e}"))?;
+            pending.drain(..c);
+            match u.try_init().map_err(|e| format!("try_init: {e}"))? {
+                jxl_oxide::InitializeResult::NeedMoreData(u) => uninit = Some(u),
+                jxl_oxide::InitializeResult::Initialized(img) => image = Some(img),
+            }
+        }
+        if phase == 0 {
+            if let Some(f) = on_pause.take() {
+                f();
+            }
+            if let Some(img) = image.as_mut() {
+                let _ = img.render_loading_frame();
+            }
+            if let Some(f) = after_pause.take() {
+                f();
+            }
+        }
+    }
+    let mut image = image.ok_or_else(|| "never initialised".to_string())?;
+    image.finalize().map_err(|e| format!("finalize: {e}"))?;
+    Ok(image)
+}
+
 // ---------------------------------------------------------------------------
 // Incremental feeding and observation
 
